@@ -1469,6 +1469,8 @@ enum TwTarget {
 #[derive(Clone, Debug)]
 enum TwPlan {
 	Set(TwTarget, XTw),
+	/// the previous command once more through the same handle, bit for bit (same target, same `Tween`)
+	Resend,
 	Ticking(bool),
 	Cb(usize),
 }
@@ -1525,6 +1527,7 @@ fn exec_tw(sr: u32, ibs: usize, init: f64, clock_tps: Option<f64>, plan: &[TwPla
 	let _track = mgr.add_sub_track(tb).unwrap();
 	let mut ops = vec![];
 	let (mut current, mut previous) = (init, init);
+	let mut last_cmd: Option<(f64, XTw)> = None;
 	for p in plan {
 		match p {
 			TwPlan::Set(t, x) => {
@@ -1536,7 +1539,14 @@ fn exec_tw(sr: u32, ibs: usize, init: f64, clock_tps: Option<f64>, plan: &[TwPla
 				};
 				tw.set(target, to_xtween(x, cid));
 				previous = target;
+				last_cmd = Some((target, *x));
 				ops.push(TwOp::Set { target, tw: *x });
+			}
+			TwPlan::Resend => {
+				if let Some((target, x)) = last_cmd {
+					tw.set(target, to_xtween(&x, cid));
+					ops.push(TwOp::Set { target, tw: x });
+				}
 			}
 			TwPlan::Ticking(b) => {
 				if let Some(c) = &mut clock {
@@ -1727,6 +1737,7 @@ fn run_tw_one(s: &mut Session, kind: &str, sr: u32, ibs: usize, init: f64, clock
 			TwPlan::Set(TwTarget::Previous, _) => s.count("tw_set_to_previous_target"),
 			TwPlan::Set(TwTarget::Initial, _) => s.count("tw_set_to_initial_value"),
 			TwPlan::Set(TwTarget::Val(_), _) => s.count("tw_set_to_new_value"),
+			TwPlan::Resend => s.count("tw_identical_command_resent"),
 			_ => {}
 		}
 		if let TwPlan::Set(_, x) = p {
@@ -1801,6 +1812,49 @@ fn run_tw(s: &mut Session, rng: &mut Rng, n_random: u64) {
 			}
 		}
 	}
+	// ---- the identical command once more (same target, same Tween, same handle) in a LATER interval: every read
+	// command restarts the transition from the present value with time 0 and a fresh start time ----
+	{
+		// the seeded change's demonstration: 0 -> 1 in 2 s, re-sent after 1 s
+		let t = XTw { st: XSt::Imm, dur_ns: 2_000_000_000, e: Easing::Linear };
+		let mut plan = vec![TwPlan::Cb(1), TwPlan::Set(TwTarget::Val(1.0), t)];
+		plan.extend((0..4).map(|_| TwPlan::Cb(1)));
+		plan.push(TwPlan::Resend);
+		plan.extend((0..10).map(|_| TwPlan::Cb(1)));
+		run_tw_one(s, "tw_resend", 4, 1, 0.0, None, &plan);
+	}
+	for first_st in 0..3 {
+		for dur in [3.0f64, 6.0] {
+			for after in [1usize, 2, 4, 8, 12] {
+				for repeats in [1usize, 3] {
+					let (sr, ibs) = *rng.pick(&[(1000u32, 4usize), (48000, 128), (8, 2), (4, 1), (1024, 16)]);
+					let cs = ibs as f64 / sr as f64;
+					let cns = cs * 1e9;
+					let tps = *rng.pick(&[0.5f64, 1.0, 0.75]) / cs;
+					let init = *rng.pick(&[0.0f64, 0.25, -1.5]);
+					let st = match first_st {
+						0 => XSt::Imm,
+						1 => XSt::Delay((2.5 * cns) as u64),
+						_ => XSt::Clock { ticks: 2, frac: *rng.pick(&[0.0, 0.5]) },
+					};
+					let e = *rng.pick(&[Easing::Linear, Easing::InPowi(2), Easing::OutPowi(3), Easing::InOutPowi(2)]);
+					let t = XTw { st, dur_ns: (dur * cns) as u64, e };
+					let mut plan = vec![TwPlan::Ticking(true), TwPlan::Cb(ibs), TwPlan::Set(TwTarget::Val(init + 1.0), t)];
+					plan.extend((0..after).map(|_| TwPlan::Cb(ibs)));
+					for r in 0..repeats {
+						plan.push(TwPlan::Resend);
+						if r % 2 == 1 {
+							plan.push(TwPlan::Resend); // twice in one interval: read once
+						}
+						plan.push(TwPlan::Cb(ibs));
+						plan.push(TwPlan::Cb(ibs + ibs / 2));
+					}
+					plan.extend((0..8).map(|_| TwPlan::Cb(ibs)));
+					run_tw_one(s, "tw_resend", sr, ibs, init, Some(tps), &plan);
+				}
+			}
+		}
+	}
 	// ---- random histories ----
 	for _ in 0..n_random {
 		let (sr, ibs) = *rng.pick(&[(1000u32, 4usize), (48000, 128), (8, 2), (44100, 64), (1024, 16), (22050, 3), (7, 1)]);
@@ -1816,6 +1870,9 @@ fn run_tw(s: &mut Session, rng: &mut Rng, n_random: u64) {
 			if rng.chance(1, 3) {
 				ticking = !ticking || rng.chance(1, 2);
 				plan.push(TwPlan::Ticking(ticking));
+			}
+			if rng.chance(1, 5) {
+				plan.push(TwPlan::Resend);
 			}
 			for _ in 0..rng.below(3) {
 				let target = match rng.below(6) {
@@ -1856,6 +1913,134 @@ fn run_tw(s: &mut Session, rng: &mut Rng, n_random: u64) {
 			}
 		}
 		run_tw_one(s, "tw_random", sr, ibs, init, Some(tps), &plan);
+	}
+}
+
+// ---- (A') the same for the LFO's parameter commands: set_frequency / set_amplitude / set_offset with a tween,
+// re-sent bit for bit in a later interval, restart the parameter's transition from its present value ----
+fn lfo_resend_scenarios(rng: &mut Rng) -> Vec<Scen> {
+	let mut v = vec![];
+	for which in 0u8..3 {
+		for delayed in [false, true] {
+			for after in [1usize, 2, 6] {
+				for repeats in [1usize, 2] {
+					let (sr, ibs) = *rng.pick(&[(1000u32, 4usize), (8, 2), (4, 1), (1024, 16)]);
+					let cs = ibs as f64 / sr as f64;
+					let cns = cs * 1e9;
+					let w = if which == 0 { *rng.pick(&[Wave::Saw, Wave::Triangle]) } else { *rng.pick(&[Wave::Pulse(1.0), Wave::Saw, Wave::Sine]) };
+					let f0 = *rng.pick(&[0.0, 0.125, 0.0625]) / cs;
+					let (a0, o0) = (*rng.pick(&[1.0, 0.5]), *rng.pick(&[0.0, 0.25]));
+					let target = match which {
+						0 => f0 + 0.25 / cs,
+						1 => a0 + 1.5,
+						_ => o0 - 2.0,
+					};
+					let tw = Tw { delay_ns: if delayed { (1.5 * cns) as i64 } else { -1 }, dur_ns: (4.0 * cns) as u64, e: *rng.pick(&[Easing::Linear, Easing::InPowi(2), Easing::OutPowi(2)]) };
+					let mut ops = vec![
+						Op::AddLfo { w, f: Val::Fixed(f0), a: Val::Fixed(a0), o: Val::Fixed(o0), phase: 0.0 },
+						Op::AddProbe { watch: 0, v: ident_link(0) },
+						Op::Cb { frames: ibs },
+						Op::SetLfoParam { id: 0, which, target: Val::Fixed(target), tw: tw.clone() },
+					];
+					ops.extend((0..after).map(|_| Op::Cb { frames: ibs }));
+					for _ in 0..repeats {
+						ops.push(Op::SetLfoParam { id: 0, which, target: Val::Fixed(target), tw: tw.clone() });
+						ops.push(Op::Cb { frames: ibs });
+						ops.push(Op::Cb { frames: ibs + ibs / 2 });
+					}
+					ops.extend((0..6).map(|_| Op::Cb { frames: ibs }));
+					v.push(Scen { sr, ibs, ops });
+				}
+			}
+		}
+	}
+	v
+}
+/// exact mirror of one LFO (id 0) whose three parameters are fixed values moved by commands with tweens; the probe
+/// (pid 0) reads its value once per chunk.  Every command that is read starts a transition from the parameter's
+/// present value with time 0 and a fresh delay -- also a command identical to the one before.
+fn check_lfo_hist(sc: &Scen, tr: &Trace, fails: &mut Vec<(String, Option<&'static str>)>) {
+	struct P {
+		raw: f64,
+		tw: Option<(f64, f64, Tw, f64, Duration)>,
+		pending: Option<(f64, Tw)>,
+	}
+	impl P {
+		fn update(&mut self, dtc: f64) {
+			if let Some((start, target, t, time, remaining)) = &mut self.tw {
+				let started = if t.delay_ns < 0 || remaining.is_zero() {
+					true
+				} else {
+					*remaining = remaining.saturating_sub(Duration::from_secs_f64(dtc));
+					false
+				};
+				let d = Duration::from_nanos(t.dur_ns).as_secs_f64();
+				if started {
+					*time += dtc;
+					if *time >= d {
+						self.raw = *target;
+						self.tw = None;
+						return;
+					}
+				}
+				if t.dur_ns != 0 {
+					self.raw = *start + (*target - *start) * apply_easing(t.e, *time / d);
+				}
+			}
+		}
+	}
+	let Some(Op::AddLfo { w, f: Val::Fixed(f0), a: Val::Fixed(a0), o: Val::Fixed(o0), phase }) = sc.ops.first() else { return };
+	let mut ps = [P { raw: *f0, tw: None, pending: None }, P { raw: *a0, tw: None, pending: None }, P { raw: *o0, tw: None, pending: None }];
+	let mut ph = *phase / TAU;
+	let dt = 1.0 / sc.sr as f64;
+	let vals: Vec<Option<f64>> = tr.log.iter().filter_map(|e| match e { Ev::Probe { pid: 0, raw, .. } => Some(*raw), _ => None }).collect();
+	let (mut pos, mut ncb) = (0usize, 0usize);
+	for op in &sc.ops {
+		match op {
+			Op::SetLfoParam { id: 0, which, target: Val::Fixed(t), tw } => ps[*which as usize].pending = Some((*t, tw.clone())),
+			Op::Cb { frames } => {
+				for p in ps.iter_mut() {
+					if let Some((t, tw)) = p.pending.take() {
+						let rem = Duration::from_nanos(tw.delay_ns.max(0) as u64);
+						p.tw = Some((p.raw, t, tw, 0.0, rem));
+					}
+				}
+				for len in chunk_lens(sc.ibs, *frames) {
+					let dtc = dt * len as f64;
+					for p in ps.iter_mut() {
+						p.update(dtc);
+					}
+					ph += dtc * ps[0].raw;
+					ph = ph.rem_euclid(1.0);
+					let wave = match w {
+						Wave::Sine => (ph * TAU).sin(),
+						Wave::Triangle => ((ph + 0.75).fract() - 0.5).abs() * 4.0 - 1.0,
+						Wave::Saw => (ph + 0.5).fract() * 2.0 - 1.0,
+						Wave::Pulse(width) => {
+							if ph < *width {
+								1.0
+							} else {
+								-1.0
+							}
+						}
+					};
+					let want = ps[2].raw + ps[1].raw * wave;
+					match vals.get(pos) {
+						Some(Some(x)) if obs64(*x) == obs64(want) => {}
+						other => {
+							fails.push((
+								format!("LFO parameter command history: chunk {pos} (callback {ncb}): the LFO is at {other:?}; with every read command (also one identical to the one before) restarting the parameter's transition from its present value, frequency {:?}, amplitude {:?}, offset {:?}, phase {ph:?} give {want:?}", ps[0].raw, ps[1].raw, ps[2].raw),
+								None,
+							));
+							return;
+						}
+					}
+					pos += 1;
+				}
+				ncb += 1;
+			}
+			_ => {}
+		}
 	}
 }
 
@@ -2673,6 +2858,9 @@ pub fn run(args: &Args) {
 		};
 		let mut an = analyse(sc, &tr);
 		check_dc(sc, &tr, &mut an.fails);
+		if kind == "lfo_resend" {
+			check_lfo_hist(sc, &tr, &mut an.fails);
+		}
 		// per history: every unclassified failure, but only the first one of a known class
 		let mut classes_seen: Vec<&'static str> = vec![];
 		for (what, cls) in &an.fails {
@@ -2781,9 +2969,12 @@ pub fn run(args: &Args) {
 		let sc = dc_scenario(&mut rng);
 		run_one(&mut s, "dc_volume", &sc, None);
 	}
+	let mut rng2 = Rng::new(Rng::new(args.seed ^ 0xC17A).next());
+	for sc in lfo_resend_scenarios(&mut Rng::new(Rng::new(args.seed ^ 0xC17B).next())) {
+		run_one(&mut s, "lfo_resend", &sc, None);
+	}
 	drop(run_one);
 	// the strengthened parts draw from their own stream, so the histories above stay what they were for a given seed
-	let mut rng2 = Rng::new(Rng::new(args.seed ^ 0xC17A).next());
 	run_tw(&mut s, &mut rng2, (if args.thorough { 4_000 } else { 120 }) * args.budget_mul);
 	run_lis(&mut s, &mut rng2, (if args.thorough { 3_000 } else { 100 }) * args.budget_mul);
 	run_window(&mut s);
